@@ -81,5 +81,20 @@ CHECKS['C03'] = dict(
          'bounded stand-ins.',
     note='trusted: pyvc/z3 encoding, uninterpreted concatenation of unread chunks with its two axioms, error() summary, '
          'enum members as values; Keyvalues.parse and IterTokenizer sources are bounded-only; Cython tokenizer unverified.')
+CHECKS['C05'] = dict(
+    category='proof',
+    technique='contract-based deductive verification: class-invariant obligations on every angle-slot store found by '
+              'an AST scan + two Float64 lemmas (z3 FP theory); frame obligations for frozen classes by fresh-object '
+              'analysis; symbolic execution of format_float over a numeral-shape model; bounded API histories',
+    text='Invariant 0 <= pitch,yaw,roll < 360: every store to an angle slot in math.py is enumerated and shown to be a '
+         'double modulo, a copy of another angle slot or an in-range literal, and the IEEE-754 facts behind the double '
+         'modulo are proved (a single modulo can return exactly 360.0 - also proved, as a vacuity guard). Frozen values: '
+         'every slot store and every call of the in-place helpers is shown to target self of a mutable class or an '
+         'object created in the same function. format_float: the real body is executed on every shape of a '
+         'fixed-point numeral (sign, integer part, number of trailing zeros): never "-0", no trailing zeros or bare '
+         'dot, significant digits kept. Operation histories and str/from_str round trips over the public API are a '
+         'bounded stand-in.',
+    note='trusted: the float-modulo model (fmod axioms), the shape of f"{x:.6f}", freshness of constructor results, '
+         'pyvc/z3; NaN/infinity excluded by the property; Cython twin unverified.')
 _PENDING = 'not yet built in this session (planned, see DESIGN.md section 3); no check is registered so nothing is claimed'
 NOT_APPLICABLE = {f'C{i:02d}': _PENDING for i in range(1, 21) if f'C{i:02d}' not in CHECKS}
